@@ -1,7 +1,7 @@
 """C03 - symbol tables enumerate exactly; name and hash lookups are complete and sound."""
 from symx.api import H
 from spec import enc
-from harness.elfkit import stream_length, elf_object
+from harness.elfkit import machines_of_interest, stream_length, elf_object
 from spec import elf_layout as L
 from spec import registry as REG
 
@@ -326,6 +326,12 @@ class _SymDouble:
         return self.Symbol(entry, self.names[idx])
 
 
+def hash_word_size(machine, cls):
+    """SysV hash tables consist of 32-bit words, except in the two 64-bit ABIs that define 64-bit hash entries (sh_entsize 8):
+    Alpha and s390x (Alpha psABI; zSeries ELF ABI supplement 'Hash table'; binutils elf64-alpha.c / elf64-s390.c, readelf.c)"""
+    return 8 if cls == 64 and machine in ('EM_ALPHA', 'EM_S390') else 4
+
+
 def h_sysv_lookup(ctx):
     cfg = ctx.cfg
     cls, little, n, NB = cfg['elfclass'], cfg['little'], cfg['n'], cfg['nbucket']
@@ -363,9 +369,11 @@ def h_sysv_lookup(ctx):
     ctx.assume(ctx.land(*A))
     words = [NB, n + 1] + buckets + chains
     data = []
+    machine = cfg.get('machine', 'EM_X86_64')
+    wsz = hash_word_size(machine, cls)
     for w in words:
-        data += enc.enc_int(w, 4, little)
-    elf = _Elf(ctx, ctx.stream([0xEE] * cfg.get('base', 0) + data + [0xEE]), cls, little)
+        data += enc.enc_int(w, wsz, little)
+    elf = _Elf(ctx, ctx.stream([0xEE] * cfg.get('base', 0) + data + [0xEE]), cls, little, machine)
     orig = HM.ELFHashTable.__dict__['elf_hash']       # the staticmethod object itself
     HM.ELFHashTable.elf_hash = staticmethod(lambda name: h[name])
     try:
@@ -485,6 +493,12 @@ def _sysv_instances(tier):
             for nb in ((1, 2) if tier == 'quick' else (1, 2, 3)):
                 for q in ['n%d' % i for i in range(1, n + 1)] + ['q']:
                     out.append(dict(elfclass=cls, little=little, n=n, nbucket=nb, query=q, base=4 if cls == 32 else 0))
+    # the word size is a property of the ABI: every machine the current source treats specially somewhere, plus the two with 64-bit words
+    for m in sorted(set(machines_of_interest()) | {'EM_ALPHA', 'EM_S390'}):
+        envs = ENVS if m in ('EM_ALPHA', 'EM_S390') else ((64, True), (32, False))
+        for cls, little in envs:
+            for q in ('n1', 'n2', 'q'):
+                out.append(dict(elfclass=cls, little=little, n=2, nbucket=2, query=q, base=0, machine=m))
     return out
 
 
